@@ -71,3 +71,40 @@ def param_default(func, name):
         if x.arg == name:
             return d
     return None
+
+
+def split_alternatives(events) -> list:
+    """Return / store events whose value is a selection between alternatives (a conditional expression, an
+    if/elif chain assigning a local that is returned once, a helper with early returns) are split into one event
+    per alternative, the alternative's condition joined to the guard - a single-exit restructuring then looks
+    like the early-return form."""
+    from dataclasses import replace
+    out = []
+
+    def alts(v, g):
+        if tag(v) == 'phi':
+            res = []
+            for c, x in v[1]:
+                res.extend(alts(x, T.mk_and([g, c])))
+            return res
+        return [(g, v)]
+    for e in events:
+        if e.kind in ('return', 'store') and e.value is not None and tag(e.value) == 'phi':
+            for g, v in alts(e.value, e.guard):
+                if g != T.FALSE:
+                    out.append(replace(e, value=v, guard=g))
+        else:
+            out.append(e)
+    return out
+
+
+def implied_by(lit, guard) -> bool:
+    """Does the literal alone make the guard true?  (guard == lit, a disjunction with such a member, a conjunction of
+    such members)"""
+    if guard == lit or guard == T.TRUE:
+        return True
+    if tag(guard) == 'or':
+        return any(implied_by(lit, x) for x in guard[1])
+    if tag(guard) == 'and':
+        return all(implied_by(lit, x) for x in guard[1])
+    return False
